@@ -754,6 +754,7 @@ func scenarios(thorough bool) []scenario {
 				return vres, v, fmt.Sprintf("err=%v", err != nil)
 			}})
 	}
+	out = append(out, sqlScenarios(thorough)...)
 	return out
 }
 
@@ -953,7 +954,7 @@ func main() {
 		schedulesShard(shard, n, tier == "thorough").Emit()
 	}
 	r = ev.Start("C19", "model_checking")
-	r.Rule("(K) two complete key exchanges (owner and device side, one encrypted message) as two threads, and two threads signing and verifying COSE_Sign1 objects, with a scheduling point before EVERY statement of internal/nistkdf, kex and cose (source rewritten at check time): all interleavings with at most 2 preemptions for the first suite/cipher pair and 1 for two more (thorough: 3 for the first, 2 for four more); each exchange must derive exactly the keys it derives alone. (S) 2 (thorough up to 3) devices against one manufacturer, rendezvous and owner server: DI||DI, TO0||TO0, TO1||TO1 (at most 3, thorough 5 deviations), TO2||TO2 with voucher replacement (1, thorough 2) and TO2||TO2||DI with mixed key types (1), delay-bounded: every departure from the default run-to-block order, preemption or not, counts as one deviation; scheduling points at every store call and every synchronisation operation of the device pipeline (thorough: one TO2||TO2 scenario also at every kex/nistkdf statement); consecutive executions continue from the state the previous one left (the owner resells the device to itself). Oracle: nobody fails, credential and stored voucher agree per device, each device module received exactly its own payload and each owner module its own echo. (F) TO2 with the transport failing at message k for k in 5..10 (thorough 2..12), all schedules of the device's threads with at most 2 deviations (thorough 3 for k=6,9): no deadlock, no panic, every thread ends (a thread left blocked for ever counts as deadlock). (R) auxiliary free-running pass: the same onboarding bodies for 2..16 (thorough ..64) devices as real goroutines in a -race binary with several GOMAXPROCS, over three servers with memory stores and over ONE server playing every role on ONE SQLite database; every onboarding must succeed as it does alone, and a race report with go-fdo frames is a violation.")
+	r.Rule("(K) two complete key exchanges (owner and device side, one encrypted message) as two threads, and two threads signing and verifying COSE_Sign1 objects, with a scheduling point before EVERY statement of internal/nistkdf, kex and cose (source rewritten at check time): all interleavings with at most 2 preemptions for the first suite/cipher pair and 1 for two more (thorough: 3 for the first, 2 for four more); each exchange must derive exactly the keys it derives alone. (S) 2 (thorough up to 3) devices against one manufacturer, rendezvous and owner server: DI||DI, TO0||TO0, TO1||TO1 (at most 3, thorough 5 deviations), TO2||TO2 with voucher replacement (1, thorough 2) and TO2||TO2||DI with mixed key types (1), delay-bounded: every departure from the default run-to-block order, preemption or not, counts as one deviation; scheduling points at every store call and every synchronisation operation of the device pipeline (thorough: one TO2||TO2 scenario also at every kex/nistkdf statement); consecutive executions continue from the state the previous one left (the owner resells the device to itself). Oracle: nobody fails, credential and stored voucher agree per device, each device module received exactly its own payload and each owner module its own echo. (F) TO2 with the transport failing at message k for k in 5..10 (thorough 2..12), all schedules of the device's threads with at most 2 deviations (thorough 3 for k=6,9): no deadlock, no panic, every thread ends (a thread left blocked for ever counts as deadlock). (Q) one server for every role over one SQLite database: the owner refreshes a registration while the registered device runs TO1, with a scheduling point before EVERY SQL statement (the store's debug log is the seam), at most 2 (thorough 3) deviations from the default order: both runs end as they do alone. (R) auxiliary free-running pass: the same onboarding bodies for 2..16 (thorough ..64) devices as real goroutines in a -race binary with several GOMAXPROCS, over three servers with memory stores and over ONE server playing every role on ONE SQLite database; every onboarding must succeed as it does alone, and a race report with go-fdo frames is a violation.")
 	if r.Replay != "" {
 		replay(r.Replay)
 		return
